@@ -234,6 +234,10 @@ def run(tier):
             seen_sigs[sig] = 1
             ck.violation("%s on input %s during the call after `%s`: %s" % (ev["op"], name, ",".join(lastcmd), " | ".join(summ)[:400] or json.dumps(ev)[:200]), scr, {"event": ev})
         remaining = remaining[bad_i + 1:]
+    # allocation failures under the sanitizers (verif/allocfault.py): heap corruption is a violation, a stop on NULL is recorded
+    from .. import allocfault
+    for what, scr in allocfault.asan_reader_sweep(ck, tier, wd, rnd):
+        ck.violation(what, scr)
     if not ck.violations:
         common.write_ndjson(p, [{"op": "reset"}, {"op": "call", "name": "read", "ret": 1}, {"op": "Crash", "sig": 11}])
         ok, res = common.validate_trace("Trace_Header", "Trace_Header.cfg", p)
